@@ -418,6 +418,33 @@ def r15_7(ctx, counts) -> RuleResult:
         cfg_facts = None
         for x in walk_local(f.node):
             if isinstance(x, ast.Compare) and len(x.ops) == 1 \
+                    and isinstance(x.ops[0], (ast.In, ast.NotIn)) \
+                    and isinstance(x.left, ast.Name) and x.left.id in keys \
+                    and dotted(x.comparators[0]).split('.')[-1] != '_map':
+                # membership of a map key in a Python container is == and hash: NaN is never in
+                n += 1
+                from ..engine.cfg import CFG as _CFG2
+                from ..engine.dataflow import branch_facts as _bf2
+                _c2 = _CFG2(f.node)
+                _f2 = _bf2(_c2)
+                _h = next((nd for nd in _c2.nodes if nd.ast is not None
+                           and nd.kind in ('stmt', 'test')
+                           and any(y is x for e2 in nd.exprs() for y in ast.walk(e2))), None)
+                _fs = _f2[_h.id] if _h is not None else frozenset()
+                if any(f'isnan({x.left.id})' in fa for fa in _fs):
+                    res.instances.append(f'{f.key}: L{x.lineno} `{stmt_text(x)}` membership test '
+                                         f'after the NaN case of the key was separated')
+                    res.ok()
+                    continue
+                res.instances.append(f'{f.key}: L{x.lineno} `{stmt_text(x)}` membership test on '
+                                     f'a map key')
+                res.fail(finding('R15.7', f, x, f'key membership {stmt_text(x)[:24]}',
+                                 f'`{stmt_text(x)[:50]}` looks a key of the map up in a Python '
+                                 f'container (== and hash): a NaN key is never found there, '
+                                 f'while op:same-key treats NaN as the same key as NaN '
+                                 f'(map:remove($m, ("a", xs:double("NaN"))) keeps the NaN entry)'))
+                continue
+            if isinstance(x, ast.Compare) and len(x.ops) == 1 \
                     and isinstance(x.ops[0], (ast.Eq, ast.NotEq)):
                 sides = [x.left, x.comparators[0]]
                 if any(isinstance(e, ast.Name) and e.id in keys for e in sides) and not any(
